@@ -410,6 +410,11 @@ func (s *ReverseInnerSearcher) Find(haystack []byte) *Match {
 			if start, end, found := s.pikevm.Search(haystack); found && start == 0 {
 				return NewMatch(start, end, haystack)
 			}
+			// Anti-quadratic guard (as in IsMatch): the region before the end of
+			// this failed candidate must not be rescanned for the next one.
+			if pos+s.innerLen > minMatchStart {
+				minMatchStart = pos + s.innerLen
+			}
 			searchStart = pos + 1
 			if searchStart >= len(haystack) {
 				break
@@ -427,6 +432,11 @@ func (s *ReverseInnerSearcher) Find(haystack []byte) *Match {
 		}
 		if matchStart < 0 {
 			// Prefix doesn't match - try next candidate
+			// Anti-quadratic guard (as in IsMatch): the region before the end of
+			// this failed candidate must not be rescanned for the next one.
+			if pos+s.innerLen > minMatchStart {
+				minMatchStart = pos + s.innerLen
+			}
 			searchStart = pos + 1
 			if searchStart >= len(haystack) {
 				break
@@ -442,6 +452,11 @@ func (s *ReverseInnerSearcher) Find(haystack []byte) *Match {
 		if matchEndAbs < 0 {
 			// Suffix doesn't match - update minPreStart and try next candidate
 			minPreStart = pos + s.innerLen
+			// Anti-quadratic guard (as in IsMatch): the region before the end of
+			// this failed candidate must not be rescanned for the next one.
+			if pos+s.innerLen > minMatchStart {
+				minMatchStart = pos + s.innerLen
+			}
 			searchStart = pos + 1
 			if searchStart >= len(haystack) {
 				break
@@ -608,6 +623,11 @@ func (s *ReverseInnerSearcher) findIndicesAtImpl(haystack []byte, at int, fwdCac
 			if start, end, found := s.pikevm.SearchAt(haystack, at); found && start == at {
 				return start, end, true
 			}
+			// Anti-quadratic guard (as in IsMatch): the region before the end of
+			// this failed candidate must not be rescanned for the next one.
+			if pos+s.innerLen > minMatchStart {
+				minMatchStart = pos + s.innerLen
+			}
 			searchStart = pos + 1
 			if searchStart >= len(haystack) {
 				break
@@ -621,6 +641,11 @@ func (s *ReverseInnerSearcher) findIndicesAtImpl(haystack []byte, at int, fwdCac
 		}
 		if matchStart < 0 || matchStart < at {
 			// Prefix doesn't match or match starts before 'at' - try next candidate
+			// Anti-quadratic guard (as in IsMatch): the region before the end of
+			// this failed candidate must not be rescanned for the next one.
+			if pos+s.innerLen > minMatchStart {
+				minMatchStart = pos + s.innerLen
+			}
 			searchStart = pos + 1
 			if searchStart >= len(haystack) {
 				break
@@ -634,6 +659,11 @@ func (s *ReverseInnerSearcher) findIndicesAtImpl(haystack []byte, at int, fwdCac
 		matchEndAbs := s.forwardDFA.SearchAtAnchored(fwdCache, haystack, pos)
 		if matchEndAbs < 0 {
 			// Suffix doesn't match - try next candidate
+			// Anti-quadratic guard (as in IsMatch): the region before the end of
+			// this failed candidate must not be rescanned for the next one.
+			if pos+s.innerLen > minMatchStart {
+				minMatchStart = pos + s.innerLen
+			}
 			searchStart = pos + 1
 			if searchStart >= len(haystack) {
 				break
